@@ -112,6 +112,16 @@ for pid, c in CHECKS.items():
         continue
     c["text"] += E5_TEXT
     c["technique"] += E5_TECH
+DEEP_TEXT = (" Deep towers: one tower per nesting position (22 makers) and per depth next to the powers of two from 65 up to %s levels, "
+             "evaluated with this check's own oracle on 1 GiB stacks, with a twin that differs in the innermost leaf and a tower one level taller "
+             "where the property relates two values.")
+DEEP_CAP = {"C01": "4097 (thorough 4098)", "C06": "4097 (thorough 4098)", "C07": "4097 (thorough 4098)", "C14": "4097 (thorough 4098)",
+            "C02": "514 (thorough 1026)", "C03": "514 (thorough 1026)", "C12": "514 (thorough 1026)", "C11": "257 (thorough 514)", "C16": "1025 (thorough 1026)"}
+for pid, cap in DEEP_CAP.items():
+    CHECKS[pid]["text"] += DEEP_TEXT % cap
+CHECKS["C08"]["text"] += (" Volume: 245 x 70 000 characters (a long word / a wide product / a rejected run; > 2^24 characters) and then the whole alphabet in ONE parse_multi batch, "
+                          "every position against the input parsed alone. Derived formats: seven edits of the public keyword tables applied to a clone of a format that has "
+                          "already served the alphabet, to a clone of the shipped instance, and undone again, against the same edit made before the first use - both parsers, 3 formats.")
 ALL = ["C%02d" % i for i in range(1, 18)]
 NOT_YET = {}
 manifest = {
